@@ -83,8 +83,7 @@ def handleLog (ins outs : List J) : Verdict :=
       let candsOf (x : Rat) : List Int :=
         let p := pos x
         let d := 16 * eps * (ratMax (ratAbs p.lo) (ratAbs p.hi) + 1)
-        let a := (p.lo - d).floor; let c := (p.hi + d).floor
-        if a == c then [a] else [a, c]
+        candsRange (p.lo - d) (p.hi + d)
       -- number of bins: ⌈m·log_b max⌉, either neighbour when on an edge
       let pm := pos mx
       let dm := 16 * eps * (ratMax (ratAbs pm.lo) (ratAbs pm.hi) + 1)
